@@ -38,6 +38,11 @@ n("n-c09-23-to-position", S + "mod.rs", "1..=3 => Ok(AisMessage::PositionReport(
 m("c12-ship-31-32", S + "types.rs", "31 => Some(Self::Towing),\n            32 => Some(Self::TowingLarge),", "32 => Some(Self::Towing),\n            31 => Some(Self::TowingLarge),", ["C12"])
 m("c12-assigned-mode-from-spare", S + "standard_aircraft_position_report.rs", "        let (data, _spare) = take_bits::<_, u8, _, _>(3u8)(data)?;\n        let (data, assigned_mode) = map(take_bits(1u8), AssignedMode::parse)(data)?;", "        let (data, assigned_mode) = map(take_bits(1u8), AssignedMode::parse)(data)?;\n        let (data, _spare) = take_bits::<_, u8, _, _>(3u8)(data)?;", ["C12", "C04"])
 m("c02-body-bounded-run", SS, "peek(take_until(\"*\"))", "peek(nom::bytes::complete::take_while_m_n(0, 384, |c| c != b'*'))", ["C02"])
+m("c04-bool-inverted", S + "parsers.rs", "        0 => false,\n        1 => true,\n        _ => unreachable!(),", "        0 => true,\n        1 => false,\n        _ => unreachable!(),", ["C04"])
+m("c04-bool-eq-zero", S + "parsers.rs", "    match data {\n        0 => false,\n        1 => true,\n        _ => unreachable!(),\n    }", "    data == 0", ["C04"])
+n("n-c04-bool-ne-zero", S + "parsers.rs", "    match data {\n        0 => false,\n        1 => true,\n        _ => unreachable!(),\n    }", "    data != 0", ["C04", "C01", "C18"])
+n("n-c11-year-if", S + "parsers.rs", "|year| match year {\n        0 => None,\n        _ => Some(year),\n    }", "|year| if year == 0 { None } else { Some(year) }", ["C11", "C04", "C01"])
+n("n-c10-sext-by-shifts", S + "parsers.rs", "        match (num << (32 - len)).leading_zeros() {\n            0 => num | mask,\n            _ => !mask & num,\n        },", "        { let _ = mask; if len == 0 { 0 } else { (num << (32 - len)) >> (32 - len) } },", ["C10", "C04", "C11", "C01"])
 n("n-c02-body-take-till", SS, "peek(take_until(\"*\"))", "peek(nom::sequence::terminated(nom::bytes::complete::take_till(|c| c == b'*'), peek(nom::character::complete::char('*'))))", ["C02", "C08", "C01"])
 m("c07-channel-alpha-only", SS, "opt(anychar)(channel_bytes)", "opt(nom::combinator::verify(anychar, |c: &char| c.is_ascii_alphabetic()))(channel_bytes)", ["C07"])
 m("c10-type27-cog-via-tenths", S + "long_range_ais_broadcast.rs", "        _ => Some(data as f32), // Course in degrees (0-359)", "        _ => parse_cog(data * 10),", ["C10", "C11"])
